@@ -69,6 +69,7 @@ POOL = [
     ("ChainMap", lambda: collections.ChainMap({"a": 1})), ("UserDict", lambda: collections.UserDict(a=1)),
     ("UserList", lambda: collections.UserList([1])), ("MyInt(3)", lambda: MyInt(3)), ("MyStr('q')", lambda: MyStr("q")),
     ("MyList", lambda: MyList([1])), ("MyDict", lambda: MyDict(a=1)),
+    ("Decimal('sNaN')", lambda: decimal.Decimal("sNaN")), ("[sNaN]", lambda: [decimal.Decimal("sNaN")]), ("10**18", lambda: 10**18), ("-10**18", lambda: -10**18),
     ("Decimal('1')", lambda: decimal.Decimal("1")), ("Decimal('NaN')", lambda: decimal.Decimal("NaN")), ("Decimal('1.5')", lambda: decimal.Decimal("1.5")),
     ("Decimal('Infinity')", lambda: decimal.Decimal("Infinity")), ("Decimal('1e30')", lambda: decimal.Decimal("1e30")),
     ("Fraction(1,3)", lambda: fractions.Fraction(1, 3)), ("1+2j", lambda: 1 + 2j),
